@@ -76,6 +76,22 @@ Definition next_is_boundary (o : list otok) : bool :=
   match o with [] => true | ONL :: _ => true | OC _ :: _ => false end.
 
 (* at_edge: the previous observed token was a line boundary (or the start) *)
+(* number of spaces at the head of the observed stream when they run up to a line
+   boundary (or the end); None when a character follows them on the line *)
+Fixpoint obs_spaces_then_edge (o : list otok) : option nat :=
+  match o with
+  | [] => Some 0
+  | ONL :: _ => Some 0
+  | OC c :: r => if N.eqb c SP then option_map S (obs_spaces_then_edge r) else None
+  end.
+
+(* number of preserved spaces at the head of the expected stream *)
+Fixpoint exp_pspaces (e : list (N * ekind)) : nat :=
+  match e with
+  | (c, EChar) :: r => if N.eqb c SP then S (exp_pspaces r) else 0
+  | _ => 0
+  end.
+
 Section Match.
 (* relaxations used only to name a deviation precisely (codes 8 / 9):
    rs: a collapsible space may be dropped inside a line; rb: a preserved line feed may fail to break the line *)
@@ -98,7 +114,16 @@ Fixpoint match_para (fuel : nat) (at_edge : bool) (e : list (N * ekind)) (o : li
             match at_edge, e' with
             | true, (c2, EChar) :: _ => if N.eqb c2 SP then match_para f at_edge e' o
                                         else match_para f false e' o'
-            | _, _ => match_para f false e' o'
+            | _, _ =>
+                (* at a line end, before hanging preserved spaces: if the spaces left on the
+                   line are no more than the preserved ones, the collapsible one may have been dropped
+                   (the only backtracking point: needs a normal -> pre-wrap transition at a line end) *)
+                match obs_spaces_then_edge o with
+                | Some k => if (k <=? exp_pspaces e') && (0 <? exp_pspaces e')
+                            then match_para f false e' o' || match_para f at_edge e' o
+                            else match_para f false e' o' || (rs && match_para f at_edge e' o)
+                | None => match_para f false e' o' || (rs && match_para f at_edge e' o)
+                end
             end
           else (at_edge || rs) && match_para f at_edge e' o
       | (_, ESpace) :: e', ONL :: o' =>
